@@ -27,8 +27,12 @@ def oracle_c11(seed, tier):
     return oracle_image.check_c11(seed, tier)
 
 
+def oracle_successive(seed, tier):
+    return oracle_image.check_successive(seed, tier)
+
+
 def checks(tier):
-    return [corr_getitem, corr_readmeta, oracle_c11]
+    return [corr_getitem, corr_readmeta, oracle_c11, oracle_successive]
 
 
 def replay(payload):
